@@ -95,6 +95,26 @@ class Gen:
         self.trees.append((nid, 0, nodes))
         return nid
 
+    def older(self, tid):
+        """another parent holding OLDER VERSIONS: files of the same size with other mtime / ctime and other
+        content (chunk ids 30..60, disjoint from the newer versions' 1..24); recursively"""
+        r = self.r
+        src = [t for t in self.trees if t[0] == tid]
+        if not src or src[0][1] != 0: return tid
+        nid = self.next_id; self.next_id += 1
+        nodes = []
+        for n in src[0][2]:
+            m = dict(n)
+            if m["ty"] == 0 and m["content"] is not None and r.random() < 0.75:
+                m["mt"] = r.choice([v for v in MTIMES if v != n["mt"]])
+                if r.random() < 0.5: m["ct"] = r.choice([v for v in CTIMES if v != n["ct"]])
+                m["content"] = [r.randint(30, 60) for _ in range(r.choice([1, 1, 2]))]
+            elif m["ty"] == 1 and m["subtree"] is not None and m["subtree"] != 999:
+                m["subtree"] = self.older(m["subtree"])
+            nodes.append(m)
+        self.trees.append((nid, 0, nodes))
+        return nid
+
     def tree_nodes(self, tid):
         for t in self.trees:
             if t[0] == tid: return t[2] if t[1] == 0 else None
@@ -158,12 +178,16 @@ def gen_case(rng):
     if 0.35 <= x < 0.40: parents = [999, root]
     if 0.40 <= x < 0.43: parents = [root, root]
     if 0.43 <= x < 0.45: parents = []
+    # several parents holding different versions of equal size, the newer version's chunks partly unknown to the index
+    versions = rng.random() < 0.15
+    if versions: parents = [root, g.older(root)]
     if rng.random() < 0.3: rng.shuffle(parents)
     ev = g.events(parents, 0)
     if rng.random() < 0.05: ev.insert(rng.randrange(len(ev) + 1), [1])
     used = sorted({c for t in g.trees for n in t[2] if n["content"] for c in n["content"]})
     y = rng.random()
     idx = used if y < 0.4 else [c for c in used if rng.random() < (0.9 if y < 0.8 else 0.5)]
+    if versions: idx = [c for c in used if c >= 30 or rng.random() < 0.5]
     ic, ii = rng.choice([0, 0, 1]), rng.choice([0, 0, 1])
     t = [ic, ii, len(g.trees)]
     for (tid, kind, nodes) in g.trees:
@@ -289,6 +313,9 @@ def gen_e2e(rng, n):
         # unless ctime is ignored; 2 = every second edit is of that kind
         y = rng.random()
         stealth = 2 if y < 0.3 else 1 if y < 0.6 else 0
+        if rng.random() < 0.08:
+            # two parents holding versions of equal size of one file; the newer version's data pack removed from the repository
+            popt, prune = rng.choice([2, 7]), 3
         cases.append("%d %d %d %d" % (seed, popt, prune, stealth))
     return cases
 
@@ -303,6 +330,7 @@ def eval_e2e(line, out):
     premise = d["premise"] == "1"
     cls.add("popt_%d" % popt)
     if prune == 1 and d["pruned"] != "-": cls.add("parent_partly_pruned(data pack)")
+    if prune == 3 and d["pruned"] != "-": cls.add("two_parents_with_versions_of_equal_size,newer_version_pruned")
     if prune == 2 and d["pruned"] != "-":
         cls.add("parent_partly_pruned(tree pack of a sub-directory)")
         if d.get("pruned_dir_untouched") == "1": cls.add("pruned_subtree_unchanged_on_disk")
@@ -792,14 +820,14 @@ def run(ctx):
         "tree_iterator_cases": len(iter_lines), "distribution_tree_iterator": iter_hist,
         "evaluations": len(lines) + len(e2e_lines) + len(mem_lines) + len(iter_lines),
         "distinct_nontrivial": len(nontriv) + len(e2e_nontriv) + iter_nontriv,
-        "rule": "hook case = 1-3 parent root trees (second/third = edited copies; missing, repeated, no parents), trees up to depth 3 over 14 names "
+        "rule": "hook case = 1-3 parent root trees (second/third = edited copies; 15%: a second parent holding older versions of equal size with other mtime/ctime and other chunks, the newer chunks half unknown to the index; missing, repeated, no parents), trees up to depth 3 over 14 names "
                 "(sorted; styles: unsorted, duplicate names, dir entries without subtree; shared, missing and undecodable subtrees), current entries derived "
                 "from the parent entries by: unchanged / size / mtime / ctime (incl. None) / inode (incl. 0) / type / link target / other metadata / removed / added, "
                 "arrival sorted, shuffled or repeated, directory name differing from the node, missing and surplus EndTree, index = all / 90% / 50% of the chunk ids, "
                 "options ignore_ctime x ignore_inode; non-trivial = at least one entry reused and one not; e2e case = seeded tree on disk, backup, 0-6 edits "
                 "(content with/without size change, with new or restored mtime, touch, rename, file<->dir<->symlink, retarget, add, remove), backup with parent options "
                 "(latest, explicit, two parents in both orders, ignore_ctime, ignore_inode, skip_if_unchanged), restore, forced backup, restore; 20% with a data pack of the "
-                "parent removed + repair_index, 15% with the tree pack of a sub-directory removed + repair_index; half of the files start with whole-second mtimes; edits incl. same size + mtime moved within the same second (whole<->sub-second) and same size + mtime restored (only ctime tells; inside the premise unless ctime is ignored) for every option variant; mem case = 2-3 states of an in-memory ReadSource (depth <= 3, 12 names, mtime/ctime from {None, whole second, +1ns, +0.4s, +0.999999999s, next second, far}, inode from {0,11,12,13}), earlier states backed up with force, the last with ignore_ctime x ignore_inode x skip_if_unchanged and latest / explicit / two explicit parents, then forced; edits: size, same size with mtime / ctime changed by seconds or within the second, nothing but bytes (outside), ctime dropped (outside), touch, ctime only, inode, type, add, remove; every file dumped and compared; non-trivial = some files reused and some re-read, inside the premise; distinct by case text",
+                "parent removed + repair_index, 15% with the tree pack of a sub-directory removed + repair_index, 8% with two parents holding versions of equal size of a file and the newer version's data pack removed; half of the files start with whole-second mtimes; edits incl. same size + mtime moved within the same second (whole<->sub-second) and same size + mtime restored (only ctime tells; inside the premise unless ctime is ignored) for every option variant; mem case = 2-3 states of an in-memory ReadSource (depth <= 3, 12 names, mtime/ctime from {None, whole second, +1ns, +0.4s, +0.999999999s, next second, far}, inode from {0,11,12,13}), earlier states backed up with force, the last with ignore_ctime x ignore_inode x skip_if_unchanged and latest / explicit / two explicit parents, then forced; edits: size, same size with mtime / ctime changed by seconds or within the second, nothing but bytes (outside), ctime dropped (outside), touch, ctime only, inode, type, add, remove; every file dumped and compared; non-trivial = some files reused and some re-read, inside the premise; distinct by case text",
         "samples": samples, "distribution": {"hook_results": hist, "e2e": e2e_hist},
         "hook_events_compared": nev,
         "traces_validated_against_impl": len(lines) + len(e2e_lines) + len(mem_lines) + len(iter_lines),
